@@ -9,6 +9,7 @@ from ..core import AnalysisError, RuleSpec
 from ..pymodel import call_name
 from .. import astq
 from . import c09
+from . import common
 
 EXPLANATION = (
     "Static rules on external_project.py / fortran_project.py. R1: exception coverage of the load "
@@ -725,6 +726,14 @@ def r10_cached_description(ctx, rep):
     common.cached_mutable_result(ctx, rep)
 
 
+def r11_names_compared_case_insensitively(ctx, rep):
+    """a binding that the project's own type overrides replaces the inherited (external) one whatever the capitalisation (generic
+    rule `mixed_case_name_comparisons`)"""
+    n = common.mixed_case_name_comparisons(ctx, rep)
+    if n < 50:
+        raise AnalysisError("entity modules not inspected")
+
+
 RULES = [
     RuleSpec("C16.R6", r6_fresh_objects_and_node_urls, "one object per exported entity; external node URLs unchanged", floor=1),
     RuleSpec("C16.R1", r1_error_coverage, "exception coverage of the external load path", floor=5),
@@ -736,4 +745,5 @@ RULES = [
     RuleSpec("C16.R8", r8_use_over_host, "use association overrides host association (shared with C07.R2)", floor=4),
     RuleSpec("C16.R9", r9_ident_key, "entities are not identified by ident alone (shared with C10.R6)", floor=1),
     RuleSpec("C16.R10", r10_cached_description, "memoised loaders do not share containers that callers edit", floor=1),
+    RuleSpec("C16.R11", r11_names_compared_case_insensitively, "names are lower-cased on both sides of a comparison", floor=1),
 ]
